@@ -26,6 +26,7 @@ from minirust import Unsupported
 from rust2lean import Tables, translate_fn
 from gen_core import CTORS as CORE_CTORS
 from gen_impls import METHODS, SIG
+import gen_impls as GI
 
 VERIF = os.path.dirname(os.path.dirname(os.path.abspath(__file__)))
 EXPANDER = os.path.join(VERIF, "expander")
@@ -343,8 +344,42 @@ def read_value(ident, texts, n, flatten):
             default = "absent0" if d else repr(body)
         else:
             default = "unreachable" if body[0] == "macro" and body[1] == "unreachable" else repr(body)
-        out[op] = {"arms": res, "default": default, "enum": is_enum}
+        out[op] = {"arms": res, "default": default, "enum": is_enum, "ast": b}
     return out
+
+
+def plain_struct(value):
+    """a struct / tuple struct all of whose arms are the plain field access `Ok(&[mut] self.<f>)` (no accessor, validator,
+    denial, `defer`): its four by-key functions have the shape of the tuple impls of impls.rs"""
+    for op, r in value.items():
+        if r["enum"] or r["default"] != "unreachable":
+            return False
+        for a in r["arms"]:
+            if "deny" in a or a["get"] or a["validate"] or not re.fullmatch(r"self\.\w+", a["place"]):
+                return False
+    places = [a["place"] for a in value["ser"]["arms"]]
+    return all([a["place"] for a in value[op]["arms"]] == places for op in value) and len(set(places)) == len(places)
+
+
+def direct_calls(b, op):
+    """`Ok(&[mut] self.f).and_then(|item| Trait::m(item, keys, x))` -> `self.f.m(keys, x)` (`Result::Ok(v).and_then(g)` is
+    `g(v)`): the form in which impls.rs writes the same access"""
+    trait, method, mutating, args = VALUE_FNS[op]
+
+    def go(e):
+        if isinstance(e, tuple):
+            if e and e[0] == "mcall" and e[2] == "and_then" and e[1][0] == "call" and e[1][1] == ("path", ["Ok"]) \
+                    and e[3] and e[3][0][0] == "closure" and e[3][0][1] == [("pbind", "item")] \
+                    and e[3][0][2] == ("call", ("path", [trait, method]), [("path", [a]) for a in args]):
+                recv = e[1][2][0]
+                while recv[0] == "unary":
+                    recv = recv[2]
+                return ("mcall", recv, method, [("path", [a]) for a in args[1:]])
+            return tuple(go(x) for x in e)
+        if isinstance(e, list):
+            return [go(x) for x in e]
+        return e
+    return go(b)
 
 
 def structure(types_rs):
@@ -355,7 +390,8 @@ def structure(types_rs):
         r = read_treekey(ident, d["TreeKey"])
         check_arms(r)
         e = {k: r[k] for k in ("ident", "lookup", "flatten", "children")}
-        e["value"] = read_value(ident, d, len(r["children"]), r["flatten"])
+        e["value"] = {op: {k: v for k, v in rv.items() if k != "ast"}
+                      for op, rv in read_value(ident, d, len(r["children"]), r["flatten"]).items()}
         out.append(e)
     return out
 
@@ -440,6 +476,38 @@ def generate_ties(tree_rs, field_rs, types_rs):
     return "\n".join(out) + "\n"
 
 
+def generate_value_ties(tree_rs, field_rs, types_rs):
+    """`Lemmas/GenTieDeriveValue.lean`: for every derived struct / tuple struct whose fields carry no attributes, the four
+    by-key functions as generated by the derive are `Tree.walk` at the node (the proof script of the tuple value ties)"""
+    sys.path.insert(0, os.path.join(VERIF, "tools"))
+    import mk_tuple_value_ties as TV
+    _text, ties = read_all(tree_rs, field_rs, types_rs)
+    out = ["-- GENERATED by extract/gen_derive.py — do not edit.  Value level: `serialize_by_key` / `deserialize_by_key` /",
+           "-- `ref_any_by_key` / `mut_any_by_key` as GENERATED by the derive for every struct / tuple struct of the corpus whose",
+           "-- fields carry no attributes = `Tree.walk` at the node (only the designated field is read or replaced).",
+           "import MiniconfVerif.Gen.Derive", "import MiniconfVerif.Lemmas.GenTieValue",
+           "set_option linter.unusedSimpArgs false",
+           "namespace MiniconfVerif.GenTie", "open MiniconfVerif MiniconfVerif.Gen MiniconfVerif.Gen.Core", ""]
+    names = []
+    for r in ties:
+        if not r.get("plain"):
+            continue
+        ident, n = r["ident"], len(r["children"])
+        for tag in TV.OPS:
+            thm = f"derive_{ident}_{tag}_tie"
+            out.append(TV.tie(n, tag, name=ident, lk=model_lookup(r["lookup"]), consts=f"Derive.{ident}.LOOKUP, ", ns="Derive", thm=thm))
+            names.append(thm)
+    groups = [names[i:i + 32] for i in range(0, len(names), 32)]
+    for g, grp in enumerate(groups):
+        out.append(f"def DeriveValueTies{g} : Prop :=\n  " + " ∧\n  ".join(f"type_of% @{x}" for x in grp))
+        out.append(f"theorem deriveValueTies{g} : DeriveValueTies{g} :=\n  ⟨" + ", ".join(f"@{x}" for x in grp) + "⟩\n")
+    out.append("/-- all of them as one statement (an obligation of C01) -/")
+    out.append("def DeriveValueTies : Prop :=\n  " + " ∧ ".join(f"DeriveValueTies{g}" for g in range(len(groups))))
+    out.append("\ntheorem deriveValueTies : DeriveValueTies :=\n  ⟨" + ", ".join(f"deriveValueTies{g}" for g in range(len(groups))) + "⟩\n")
+    out.append("end MiniconfVerif.GenTie")
+    return "\n".join(out) + "\n"
+
+
 _MEMO = {}
 
 
@@ -480,6 +548,27 @@ def _generate(tree_rs, field_rs, types_rs, limit=None):
                             "Except (Error G) Nat", tb, "panic", state_ret=("func", "σ"),
                             doc=f"`<{ident} as TreeKey>::traverse_by_key` as generated by `#[derive(TreeKey)]`" +
                                 (" (`#[tree(flatten)]`)" if r["flatten"] else ""))
+        r["plain"] = False
+        if not r["flatten"]:
+            value = read_value(ident, d, n, False)
+            if plain_struct(value):
+                r["plain"] = True
+                fields = [a["place"].split(".", 1)[1] for a in value["ser"]["arms"]]
+                fmap = {f: i for i, f in enumerate(fields)}
+                consts = {"LOOKUP": f"{ident}.LOOKUP"}
+                key_fns = {"Error::increment_result": ("Error.increment_result", "pure")}
+                for op, (trait, method, _mut, _args) in VALUE_FNS.items():
+                    body = direct_calls(value[op]["ast"], op)
+                    if op in ("ref", "mut"):
+                        # `let ret = <match>; ret.map_err(Traversal::increment)` -> `<match>.map_err(Traversal::increment)`
+                        # (single use of an immutable binding), the form of the tuple impls
+                        st, tail = body[1], body[2]
+                        if not (len(st) == 2 and st[1][0] == "let" and st[1][1] == ("pbind", "ret") and tail[0] == "mcall"
+                                and tail[1] == ("path", ["ret"])):
+                            raise Unsupported(f"{ident}::{method}: `let ret = …; ret.map_err(…)` expected")
+                        body = ("block", [st[0]], ("mcall", st[1][2], tail[2], tail[3]))
+                    out += GI.value_fn_(consts, key_fns, f"{ident}.{method}", body, method, n, fieldmap=fmap,
+                                        doc=f"`<{ident} as {trait}>::{method}` as generated by the derive (fields as a list: {fields})")
         ties.append(r)
         n_done += 1
     out.append("end MiniconfVerif.Gen.Derive")
@@ -492,6 +581,8 @@ if __name__ == "__main__":
         T = os.path.join(VERIF, "harness", "src", "gen_types.rs")
         if len(sys.argv) > 1 and sys.argv[1] == "ties":
             print(generate_ties(R + "tree.rs", R + "field.rs", T))
+        elif len(sys.argv) > 1 and sys.argv[1] == "vties":
+            print(generate_value_ties(R + "tree.rs", R + "field.rs", T))
         else:
             print(generate(R + "tree.rs", R + "field.rs", T))
     except Unsupported as e:
